@@ -10,3 +10,5 @@ done
 git -C /repo checkout -- .
 rm -rf /verif/evidence && mv /verif/.run/evidence_backup /verif/evidence
 git -C /repo status --short | head -3
+# the generated files were re-derived from the patched tree: re-derive them from the restored one
+./check --setup > /dev/null 2>&1
